@@ -26,32 +26,32 @@ func PlanCount(prop, tier string) int {
 		if q {
 			return 900
 		}
-		return 30000
+		return 10000
 	case "C12":
 		if q {
 			return 700
 		}
-		return 20000
+		return 10000
 	case "C19":
 		if q {
 			return 700
 		}
-		return 20000
+		return 8000
 	case "C20":
 		if q {
 			return 800
 		}
-		return 20000
+		return 8000
 	case "C10":
 		if q {
 			return 500
 		}
-		return 12000
+		return 6000
 	case "C14":
 		if q {
 			return 240
 		}
-		return 3000
+		return 1200
 	}
 	return 0
 }
